@@ -56,15 +56,17 @@ def fastPath (lower upper : List α) : Option (α × α) :=
   | some lo, some hi => if allEq lower lo && allEq upper hi then some (lo, hi) else none
   | _, _ => none
 
-/-- one row of the per-feature loop `clipped[:, f] = np.clip(array[:, f], lower[f], upper[f])`
-(`IndexError` when the array has more columns than there are bounds) -/
+/-- one row of the per-feature path `np.clip(array, lower, upper)` (bounds broadcast over the rows): entry `j` is clipped
+to `[lower[j], upper[j]]`; a row with a different number of columns than there are bounds cannot be broadcast
+(`ValueError`).  (A 1-column array would be broadcast against several bounds to a wider array: not a clipping
+configuration, not modelled.) -/
 def clipRow : List α → List α → List α → Except ClipErr (List α)
-  | _, _, [] => .ok []
+  | [], [], [] => .ok []
   | l :: ls, u :: us, x :: xs =>
     match clipRow ls us xs with
     | .ok ys => .ok (clip1 l u x :: ys)
     | .error e => .error e
-  | _, _, _ :: _ => .error .indexError
+  | _, _, _ => .error .valueError
 
 def clipRows (lower upper : List α) : List (List α) → Except ClipErr (List (List α))
   | [] => .ok []
@@ -99,9 +101,9 @@ def clipToBounds1 (xs : List α) (lower upper : List α) : Except ClipErr (List 
 when the fast-path test succeeds the bounds are one scalar pair that applies to every column,
 otherwise they are per-feature. -/
 def RowIn : List α → List α → List α → Prop
-  | _, _, [] => True
+  | [], [], [] => True
   | l :: ls, u :: us, x :: xs => (l ≤ x ∧ x ≤ u) ∧ RowIn ls us xs
-  | _, _, _ :: _ => False
+  | _, _, _ => False
 
 def InDomain (lower upper : List α) (row : List α) : Prop :=
   match fastPath lower upper with
